@@ -313,6 +313,14 @@ def run_component(comp, streams, seed, tier, name, curves=None, extra_args=None)
         d = compare_case(cid, mm, ii, summ[cid], msm_lines)
         for code, text in d:
             res.disagreements.append((cid, code, text))
+        if comp == "batch" and ii and 22 in ii and 15 in ii:
+            # the model's batch weights are one fresh ScalarField::rand draw per instance (C07 theorems quantify over
+            # arbitrary independent weights): the real batch_verify must consume exactly those draws from its RNG,
+            # or none when it returns an instance's own error before weighting
+            used, expect = int(ii[22][0]), int(ii[22][1])
+            bv = int(ii[15][0])
+            if bv != 99 and not (used == expect or (used == 0 and bv != 0)):
+                res.disagreements.append((cid, 22, "batch_verify consumed %d bytes of its RNG; one fresh scalar draw per instance (the model's weights) consumes %d: the weights are not the independent draws the C07 theorems are about" % (used, expect)))
     bad, n = msmcheck(msm_lines, outdir)
     res.msm_checked = n
     for tag in bad:
